@@ -147,8 +147,10 @@ def main(c):
         results += list(par.values())
         if all(r.ok for r in par.values()) and len(par) == nfiles:
             propfiles = [props, "Properties_C26_Mono.v", "Properties_C26_Tight.v"] + ([] if c.quick() else ["Properties_C26_TightThorough.v"])
-            for pf in propfiles:
-                results.append(c.coq([pf], timeout=600))
+            # one call: in the thorough tier coqchk then runs once over all property files (it re-checks every Interval proof: capped at
+            # 10 minutes unless VERIF_COQCHK_TIMEOUT says otherwise; a time-out is recorded in the evidence, it is not a violation)
+            os.environ.setdefault("VERIF_COQCHK_TIMEOUT", "600")
+            results.append(c.coq(propfiles, timeout=900))
     c.coverage["checker_cmd"] = ("coqc -Q coq/lib VLib -R <scratch> C26 C26_gen.v C26Spec.v C26Proofs.v C26ProofsJ.v C26ProofsJ2.v C26ProofsB.v C26ProofsB2.v C26ProofsB3.v "
                                  "C26ProofsM.v C26ProofsJM.v C26TightCJ.v C26TightMB.v %s%s %s Properties_C26_Mono.v Properties_C26_Tight.v%s (Coq 8.16.1, Coquelicot, Interval)" % (
                                      "" if c.quick() else "C26TightS1.v C26TightS2.v ", jodd, props, "" if c.quick() else " Properties_C26_TightThorough.v"))
